@@ -25,9 +25,6 @@ func c14Check(c *hist.Case, r *evid.Rec) []evid.Disc {
 			directed = "-directed-schedule"
 		}
 	}
-	if c.Cfg.FreeTeardown && directed == "" {
-		directed = "-free-running-teardown"
-	}
 	// (1) CONNACK session present == a session existed and clean start was 0
 	for _, ce := range m.Conns {
 		if !ce.Success {
@@ -116,7 +113,7 @@ func c14Gen(rt *rapid.T) *hist.Case {
 	c.Actions = append(c.Actions, mk(2, 4, true, nil))
 	mode := rapid.IntRange(0, 5).Draw(rt, "mode")
 	switch {
-	case mode <= 2:
+	case mode <= 3:
 		// ---- sequential histories under the default schedule policy (teardown after everything else)
 		action := rapid.Custom(func(rt *rapid.T) hist.Action {
 			cl := rapid.IntRange(0, 1).Draw(rt, "client")
@@ -135,20 +132,6 @@ func c14Gen(rt *rapid.T) *hist.Case {
 		})
 		c.Actions = append(c.Actions, rapid.SliceOfN(action, 4, 30).Draw(rt, "actions")...)
 		c.Actions = append(c.Actions, probe()...)
-	case mode == 3:
-		// ---- free-running teardown: the old handler's teardown overlaps the new handler
-		c.Cfg.FreeTeardown = true
-		ver := vers[0]
-		c.Actions = append(c.Actions, mk(0, ver, rapid.Bool().Draw(rt, "c0"), genExpiry(rt)),
-			hist.Action{Kind: "subscribe", Client: 0, Filters: []refmqtt.Filter{{Filter: "t/#", QoS: 1}}})
-		n := rapid.IntRange(1, 6).Draw(rt, "ntakeovers")
-		for i := 0; i < n; i++ {
-			c.Actions = append(c.Actions, mk(0, ver, rapid.IntRange(0, 2).Draw(rt, "clean") == 0, genExpiry(rt)))
-			if rapid.Bool().Draw(rt, "resub") {
-				c.Actions = append(c.Actions, hist.Action{Kind: "subscribe", Client: 0, Filters: []refmqtt.Filter{{Filter: "t/#", QoS: 1}}})
-			}
-			c.Actions = append(c.Actions, probe()...)
-		}
 	default:
 		// ---- directed schedules around one takeover
 		c.Cfg.FreeTeardown = true
@@ -185,7 +168,7 @@ func c14Gen(rt *rapid.T) *hist.Case {
 }
 
 func TestC14(t *testing.T) {
-	r := evid.New("C14", "rapid, three classes over 2 client ids (one protocol version per id, v3.1/v3.1.1/v5): (a) sequential connect (clean start 0/1, session expiry absent/0/300) / subscribe / unsubscribe / publish-by-third-client / disconnect / drop / reconnect / takeover histories under the default schedule policy; (b) free-running teardown: repeated takeovers whose old handler's teardown overlaps the new handler; (c) directed schedules around one takeover through verif schedule points: 'old-first' (new handler parked at inherit.afterDisconnectOld until the old handler has finished) and 'delete-after-add' (old handler parked at attach.beforeDelete until the new connection is established). Oracle: CONNACK session present == (model: session existed and clean start 0); the taken-over v5 connection ends with DISCONNECT 0x8E and nothing after it, and is closed; nothing is resent without session present; and the per-publish delivery oracle of C03 over the model's subscriptions (resumed sessions keep them, clean start drops them) including probe publishes after every takeover; non-trivial = takeover or reconnect with prior session state; distinct by (history, step)")
+	r := evid.New("C14", "rapid, two classes over 2 client ids (one protocol version per id, v3.1/v3.1.1/v5): (a) sequential connect (clean start 0/1, session expiry absent/0/300) / subscribe / unsubscribe / publish-by-third-client / disconnect / drop / reconnect / takeover histories under the default schedule policy; (b) directed schedules around one takeover through verif schedule points: 'old-first' (new handler parked at inherit.afterDisconnectOld until the old handler has finished) and 'delete-after-add' (old handler parked at attach.beforeDelete until the new connection is established). Oracle: CONNACK session present == (model: session existed and clean start 0); the taken-over v5 connection ends with DISCONNECT 0x8E and nothing after it, and is closed; nothing is resent without session present; and the per-publish delivery oracle of C03 over the model's subscriptions (resumed sessions keep them, clean start drops them) including probe publishes after every takeover; non-trivial = takeover or reconnect with prior session state; distinct by (history, step)")
 	defer r.Finish(t)
 	if evid.ReplayMode() {
 		evid.Replay(t, r, replayPath(), c14Check)
